@@ -32,6 +32,13 @@ func main() {
 			o.Tier = t
 		}
 		os.Exit(RunCheck(o))
+	case "replay":
+		fs := flag.NewFlagSet("replay", flag.ExitOnError)
+		file := fs.String("file", "", "replay file written by a failed check")
+		repo := fs.String("repo", "/repo", "repository")
+		verif := fs.String("verif", "/verif", "verification directory")
+		fs.Parse(os.Args[2:])
+		os.Exit(RunReplay(*file, *repo, *verif))
 	default:
 		fmt.Fprintln(os.Stderr, "unknown command", os.Args[1])
 		os.Exit(2)
